@@ -316,7 +316,14 @@ def table_sweep(rep, quick):
         for step, (key, val) in enumerate([("C", 4), ("C", 3), ("C", 2), ("N", 1), ("C", 4), ("O", 0), ("O", 2), ("?", 2), ("C", 1)]):
             t[key] = val
             sf.set_semantic_constraints(t)            # the SAME dict object every time
-            now = sf.get_semantic_constraints()
+            # ... followed by updates that must be rejected and must leave the table just installed in force
+            for bad in ({k: v for k, v in t.items() if k != "?"}, dict(t, Qq=1, C=0, N=9), dict(t, N=-1, C=0, O=9),
+                        dict(t, **{"C": 0, "O": 2.5})):
+                try:
+                    sf.set_semantic_constraints(bad)
+                except ValueError:
+                    pass
+            now = dict(t)
             recs = []
             for toks in inputs:
                 kind, out = de.call_decoder("".join(toks))
